@@ -56,13 +56,37 @@ func scratch() string {
 	return scratchDir
 }
 
+var portCounter int
+var workerShard int
+
+// freePort hands out ports from a range private to this worker process (below
+// the kernel's ephemeral range, offset by pid), verified to be unused on all
+// loopback addresses the harness listens on. Two workers never get the same
+// port, and a port is never reused within a worker.
 func freePort() int {
-	l, err := net.Listen("tcp", "127.0.0.1:0")
-	if err != nil {
-		infra("no free port: %v", err)
+	// one range per shard of the running check (16 x 1200 ports below the ephemeral range)
+	base := 12000 + (workerShard%16)*1200
+	if portCounter == 0 {
+		portCounter = (os.Getpid() * 37) % 600
 	}
-	defer l.Close()
-	return l.Addr().(*net.TCPAddr).Port
+	for i := 0; i < 1200; i++ {
+		portCounter++
+		p := base + portCounter%1200
+		ok := true
+		for _, ip := range []string{"0.0.0.0", "127.0.0.2", "127.0.0.3"} {
+			l, err := net.Listen("tcp", ip+":"+strconv.Itoa(p))
+			if err != nil {
+				ok = false
+				break
+			}
+			l.Close()
+		}
+		if ok {
+			return p
+		}
+	}
+	infra("no free port in the worker's range")
+	return 0
 }
 
 // GwProc is a running (or exited) gateway process.
@@ -136,6 +160,8 @@ func StartGateway(yaml string, env []string, port int, useTLS bool) *GwProc {
 		c, err := net.DialTimeout("tcp", "127.0.0.1:"+strconv.Itoa(port), 200*time.Millisecond)
 		if err == nil {
 			c.Close()
+			// it must be this process that listens: give an exiting process a moment to be reaped
+			time.Sleep(30 * time.Millisecond)
 			return g
 		}
 		time.Sleep(15 * time.Millisecond)
